@@ -1623,3 +1623,139 @@ class SchemaAgree(ProtoBase):
         if op == "wire":
             return "wire:" + " ".join(ans.split(" ")[:2])
         return super().tag(req, ans) + (":protoc" if self.pc.bin else ":builtin")
+
+
+# ------------------------------------------------------------------------------ C18: "for every module"
+
+PROTO_WORDS = ["message", "enum", "package", "syntax", "repeated", "oneof", "import", "option", "reserved", "returns",
+               "rpc", "service", "stream", "map", "bool", "string", "bytes", "uint32", "double", "float", "true", "false",
+               "max", "to", "extend", "extensions", "group", "public", "weak", "optional", "required", "inf", "nan"]
+
+GEN_MODULE_NAMES = ["Simple", "Fleet-Module", "FleetModule", "My-Module-Defs", "ITS-Container", "CAM-PDU-Descriptions",
+                    "ISO-8859", "X-509", "A", "Ab-Cd-Ef", "Abc2", "Abc-2x", "My-Mod3-X", "UPPER", "UPPER-Case", "Camel-CaseName",
+                    "Ends-With-", "PKIX1Explicit88", "Mod-a-b", "Package", "Message", "Syntax"]
+
+GEN_OIDS = ["", "{ iso(1) standard(0) 4711 }", "{ itu-t(0) identified-organization(4) etsi(0) its(5) }", "{ 1 2 3 }",
+            "{ iso standard 8859 }", "{ joint-iso-itu-t(2) ds(5) module(1) x-509(7) 2nd(2) }", "{ iso(1) package(2) message(3) }"]
+
+GEN_CLASSES = [
+    (r"Fields in oneofs must not have labels", "proto.schema_repeated_in_oneof"),
+    (r"repeated repeated|Missing field number|Expected \"=\"", "proto.schema_repeated_repeated"),
+]
+
+
+class ProtoGen(ProtoBase):
+    """C18, first half of the statement: for every module the generated .proto file is valid proto3.
+    The real generator (harness op `proto gen`) writes the files for generated module texts — module names,
+    object identifiers, component / type / item names that are proto3 keywords, random structures — and
+    protoc must accept them.  Exploration level: protoc is the oracle, nothing of it is modelled."""
+    name = "proto-gen"
+
+    def prepare(self, harness, driver):
+        super().prepare(harness, driver)
+        self.bin = find_protoc()
+        self.scratch = os.path.join(vlib.WORK, "proto_gen")
+        shutil.rmtree(self.scratch, ignore_errors=True)
+        os.makedirs(self.scratch, exist_ok=True)
+        self.verdicts = {}
+
+    @staticmethod
+    def module_text(name, oid, body):
+        return f"{name} {oid} DEFINITIONS AUTOMATIC TAGS ::= BEGIN\n{body}\nEND\n"
+
+    def gen(self, rng, tier):
+        reqs = []
+        body = "T ::= SEQUENCE { a INTEGER (0..255), b BOOLEAN OPTIONAL }\nE ::= ENUMERATED { x, y }\nC ::= CHOICE { p T, q E }"
+        for n in GEN_MODULE_NAMES:
+            for oid in (GEN_OIDS if tier == "thorough" else GEN_OIDS[:1]):
+                reqs.append("proto gen " + vlib.hexs(self.module_text(n, oid, body).encode()))
+        for oid in GEN_OIDS:
+            reqs.append("proto gen " + vlib.hexs(self.module_text("Oid-Mod", oid, body).encode()))
+        for w in PROTO_WORDS:
+            up = w[0].upper() + w[1:]
+            b = (f"{up} ::= SEQUENCE {{ {w} INTEGER (0..7), other BOOLEAN }}\n"
+                 f"E{up} ::= ENUMERATED {{ {w}, other }}\n"
+                 f"C{up} ::= CHOICE {{ {w} BOOLEAN, other {up} }}\n"
+                 f"L{up} ::= SEQUENCE OF {up}")
+            reqs.append("proto gen " + vlib.hexs(self.module_text("Words", "", b).encode()))
+        # two modules, the second imports from the first (with and without object identifiers)
+        for n1, n2 in (("Base-Types", "User-Types"), ("ITS-Container", "CAM-PDU"), ("Lib", "App-2")):
+            for oid in GEN_OIDS[:2]:
+                a = self.module_text(n1, oid, "Colour ::= ENUMERATED { red, green }\nCar ::= SEQUENCE { c Colour }")
+                b = self.module_text(n2, "", f"IMPORTS Colour, Car FROM {n1} {oid};\nFleet ::= SEQUENCE OF Car\n"
+                                     "Paint ::= SEQUENCE { main Colour, others SEQUENCE OF Colour, pick CHOICE { a Car, b Colour } }")
+                reqs.append("proto gen " + vlib.hexs(a.encode()) + "," + vlib.hexs(b.encode()))
+        # random structures with harmless identifiers (generator of C09)
+        from checks import c09
+        c09.CLEAN[0] = True
+        try:
+            r = rng.fork("gen")
+            for i in range(150 if tier == "quick" else 1500):
+                m = c09.rnd_module(r, name=r.choice(["Rnd-Mod", "RndMod", "Rnd-Mod-2"]))
+                reqs.append("proto gen " + vlib.hexs(c09.r_module(m).encode()))
+        finally:
+            c09.CLEAN[0] = False
+        return reqs
+
+    def compare(self, req, impl, model):
+        return True          # no model: protoc decides
+
+    def verdict(self, req, ans):
+        if req in self.verdicts:
+            return self.verdicts[req]
+        v = None
+        if ans.startswith("ok") and self.bin:
+            d = os.path.join(self.scratch, str(len(self.verdicts)))
+            os.makedirs(d, exist_ok=True)
+            files = []
+            for item in ans.split(" ")[1:]:
+                f, c = item.split(":")
+                f = unhex(f).decode("utf-8", "replace")
+                if "/" in f or not f.endswith(".proto") or f in files:
+                    v = ("bad-file-name", f"file name `{f}`")
+                    break
+                files.append(f)
+                open(os.path.join(d, f), "wb").write(unhex(c))
+            if v is None:
+                for f in files:
+                    rc, out, err = vlib.sh([self.bin, "-I", d, "-o", os.devnull, os.path.join(d, f)])
+                    if rc != 0:
+                        lines = [l for l in err.splitlines() if "warning" not in l]
+                        first = lines[0] if lines else err[:200]
+                        text = open(os.path.join(d, f), encoding="utf-8", errors="replace").read()
+                        m = re.match(r"^[^:]+:(\d+):", first)
+                        src = text.splitlines()[int(m.group(1)) - 1].strip() if m and int(m.group(1)) <= len(text.splitlines()) else ""
+                        v = ("protoc", f"protoc rejects {f}: {first.split(': ', 1)[-1][:120]} [`{src[:80]}`]")
+                        break
+            shutil.rmtree(d, ignore_errors=True)
+        self.verdicts[req] = v
+        return v
+
+    def oracle(self, req, ans):
+        if ans in ("panic", "abort", "hang"):
+            return "the generator panics"
+        v = self.verdict(req, ans)
+        return v[1] if v else None
+
+    ANON_INNER = re.compile(r"^\s*[\w-]+\s*::=\s*(?:\[[^\]]*\]\s*)?(?:SEQUENCE|SET)\s*(?:\(\s*SIZE\s*\([^)]*\)\s*\))?\s*OF\s+"
+                            r"(?:\[[^\]]*\]\s*)?(?:SEQUENCE|SET|CHOICE|ENUMERATED)\s*\{", re.M)
+
+    def finding_class(self, req, ans):
+        v = self.verdict(req, ans)
+        if not v:
+            return None
+        for pat, cls in GEN_CLASSES:
+            if re.search(pat, v[1]):
+                return cls
+        if "is already defined" in v[1]:
+            texts = [unhex(h).decode("utf-8", "replace") for h in req.split(" ")[2].split(",")]
+            if any(self.ANON_INNER.search(t) for t in texts):
+                return "proto.schema_anonymous_inner"
+        return None
+
+    def tag(self, req, ans):
+        v = self.verdict(req, ans) if ans.startswith("ok") else None
+        return "gen:" + ans.split(" ")[0] + (":" + ans.split(" ")[1].split(":")[0] if ans.startswith("err") else "") + (":rejected" if v else "")
+
+    def nontrivial(self, req, ans):
+        return ans.startswith("ok")
